@@ -146,10 +146,19 @@ def build_uri(c):
     return uri
 
 
+def _is_ipv4_literal(text):
+    parts = text.split(".")
+    return len(parts) == 4 and all(p.isdigit() and p.isascii() and int(p) <= 255 for p in parts)
+
+
 def expected_of(c):
     a = c["auth"]
     port = None if a["port"] in (None, "") else int(a["port"])
-    if a["kind"] in ("name", "lookalike"):
+    if a["kind"] in ("name", "lookalike") and _is_ipv4_literal(a["text"]):
+        # a generated "name" that is in fact a dotted quad is an IPv4address (RFC 3986 3.2.2: first match wins)
+        uri_host = None
+        host_norm = a["text"]
+    elif a["kind"] in ("name", "lookalike"):
         uri_host = ascii_lower(a["decoded"])
         host_norm = ascii_lower(a["decoded"])
     elif a["kind"] == "ipv4":
@@ -197,7 +206,7 @@ def same_host(a, b):
 
 def host_matches(got_host, want, c):
     """got_host: host text out of a hostinfo (still percent-encoded for names); want['host']: decoded, lower-cased"""
-    if c["auth"]["kind"] in ("name", "lookalike"):
+    if c["auth"]["kind"] in ("name", "lookalike") and not _is_ipv4_literal(c["auth"]["text"]):
         return norm_host(got_host) == want["host"]
     return same_host(got_host, want["host"])
 
